@@ -110,6 +110,7 @@ pub fn run_case(id: u32, t: &[u8]) -> String {
         33 => case::<P>(t),
         34 => case::<BTreeMap<u64, String>>(t),
         35 => case::<BTreeMap<i8, ()>>(t),
+        36 => case::<Z>(t),
         42 => case::<Cow<str>>(t),
         44 => case::<Unt>(t),
         45 => case::<Flat>(t),
